@@ -794,6 +794,7 @@ Inductive pos :=
 | PType         (* inside a type (after `as`, `->`) *)
 | PMinus        (* operand expected, previous token was a Joint `-` *)
 | PTMinus       (* inside a type, previous token was a Joint `-` *)
+| PShift        (* after the first `<` of `<<` / `<<=` *)
 | PHash         (* after `#`: the attribute's bracket group follows *)
 | PTick.        (* after `'`: a label / lifetime name follows *)
 
@@ -834,9 +835,17 @@ Definition turbofish_ref : cursor -> option (stream * cursor) := seq2_ref path_s
 Definition qpath_ref : cursor -> option (stream * cursor) := seq2_ref (balanced_pair_ref c_lt c_gt) path_sep_ref.
 Definition bars_ref_ : cursor -> option (stream * cursor) := balanced_pair_ref c_bar c_bar.
 
-(** one unit read where an operator is expected *)
-Definition operator_step (t : tt) (r : cursor) : stream * cursor * pos * bool :=
-  if is_p c_lt t then ([t], r, POperand, negb (is_some (qpath_ref (t :: r))))
+(** one unit read where an operator is expected ([second]: the previous token was the first `<` of `<<`) *)
+Definition operator_step (second : bool) (t : tt) (r : cursor) : stream * cursor * pos * bool :=
+  if is_p c_lt t then
+    (* Rust's lexer is greedy: a Joint `<` followed by `=` is `<=`, followed by `<` it is `<<`, whose second `<`
+       may in turn be followed by `=` (`<<=`); then the operator is over *)
+    let j := match t with TPunct _ j => j | _ => false end in
+    ([t], r,
+     (if j && head_punct c_eq r then POperator
+      else if negb second && j && head_punct c_lt r then PShift
+      else POperand),
+     negb (is_some (qpath_ref (t :: r))))
   else if is_p c_bar t then
     match t, r with
     | TPunct _ true, t2 :: r2 =>
@@ -861,9 +870,10 @@ Definition spec_step (st : pos) (c : cursor) : option (stream * cursor * pos * b
               end
             else if match st with PTMinus => is_p c_gt t | _ => false end then Some ([t], r, PType, true)
             else if type_tok t then Some ([t], r, if is_jminus t then PTMinus else PType, true)
-            else Some (operator_step t r)
+            else Some (operator_step false t r)
           else match st with
-          | POperator => Some (operator_step t r)
+          | POperator => Some (operator_step false t r)
+          | PShift => Some (operator_step true t r)
           | _ =>
               if match st with PMinus => is_p c_gt t | _ => false end then Some ([t], r, PType, true)   (* `->` *)
               else if match st, t with PHash, TGroup _ _ => true | PTick, TIdent _ => true | _, _ => false end
